@@ -30,8 +30,9 @@ def zeros (n : Nat) : Bytes := List.replicate n 0
 
 /-- per frame: what `Tiff::append` needs to know for its three writes -/
 structure FrameIo where
-  img : Nat     -- bytes_of_frame - sizeof(VideoFrame)
-  desc : Nat    -- ifd_strings_.size
+  img : Nat        -- bytes_of_frame - sizeof(VideoFrame)
+  descFirst : Nat  -- ifd_strings_.size when this is the first frame of the file (description carries the metadata)
+  descRest : Nat   -- ifd_strings_.size otherwise
 deriving Repr
 
 /-- `struct Tiff` (I/O relevant part) -/
@@ -39,6 +40,7 @@ structure Tiff where
   state : DeviceState := .awaiting
   filename : Bytes := []       -- filename_ (std::string contents)
   fid : Fd := 0                -- file_.fid
+  frameCount : Nat := 0        -- frame_count_
 
 /-- `validate_json` of tiff.cpp / side-by-side-tiff.cpp on `nbytes` bytes -/
 def validateJson (mem : Bytes) : Bool :=
@@ -59,6 +61,7 @@ def tiffSet (os : Os) (t : Tiff) (uri : Bytes) (nbytes : Nat) (md : Bytes) : Os 
 
 /-- `Tiff::start` (1 = true) -/
 def Tiff.start (os : Os) (t : Tiff) : Os × Tiff × Bool :=
+  let t := { t with frameCount := 0 }
   match fileCreate os (cstr t.filename) with
   | (os, none) => (os, t, false)
   | (os, some fd) =>
@@ -77,7 +80,7 @@ def tiffStart (os : Os) (t : Tiff) : Os × Tiff × DeviceState :=
 def Tiff.stop (os : Os) (t : Tiff) : Os × Tiff :=
   if t.state = .running then
     let os := (fileWrite os t.fid 0 (zeros tiffTerminatorBytes)).1     -- terminate_ifd_list
-    (fileClose os t.fid, { t with state := .armed })
+    (fileClose os t.fid, { t with state := .armed, frameCount := 0 })
   else (os, t)
 
 /-- `tiff_stop` -/
@@ -85,25 +88,25 @@ def tiffStop (os : Os) (t : Tiff) : Os × Tiff × DeviceState :=
   let (os, t) := t.stop os
   (os, t, .armed)
 
-/-- the frame loop of `Tiff::append` -/
-def Tiff.appendFrames (os : Os) (t : Tiff) : List FrameIo → Os × Bool
-  | [] => (os, true)
+/-- the frame loop of `Tiff::append`; `none` = a write failed (`return 0`) -/
+def Tiff.appendFrames (os : Os) (t : Tiff) : List FrameIo → Os × Tiff × Bool
+  | [] => (os, t, true)
   | f :: fs =>
     match fileWrite os t.fid 0 (zeros tiffIfdBytes) with
-    | (os, false) => (os, false)
+    | (os, false) => (os, t, false)
     | (os, true) =>
       match fileWrite os t.fid 0 (zeros f.img) with
-      | (os, false) => (os, false)
+      | (os, false) => (os, t, false)
       | (os, true) =>
-        match fileWrite os t.fid 0 (zeros f.desc) with
-        | (os, false) => (os, false)
-        | (os, true) => Tiff.appendFrames os t fs
+        match fileWrite os t.fid 0 (zeros (if t.frameCount = 0 then f.descFirst else f.descRest)) with
+        | (os, false) => (os, t, false)
+        | (os, true) => Tiff.appendFrames os { t with frameCount := t.frameCount + 1 } fs
 
 /-- `tiff_append` -/
 def tiffAppend (os : Os) (t : Tiff) (fs : List FrameIo) : Os × Tiff × DeviceState :=
   match t.appendFrames os fs with
-  | (os, true) => (os, t, .running)
-  | (os, false) => tiffStop os t
+  | (os, t, true) => (os, t, .running)
+  | (os, t, false) => tiffStop os t
 
 /-- `tiff_destroy`: `stop` through the vtable, then `delete` (the destructor stops again) -/
 def tiffDestroy (os : Os) (t : Tiff) : Os × Tiff :=
